@@ -11,19 +11,47 @@ VERIF = os.path.dirname(os.path.dirname(os.path.abspath(__file__)))
 EXIT_OK, EXIT_VIOLATION, EXIT_INCONCLUSIVE = 0, 1, 2
 
 
+class UnitTimeout(BaseException):
+    pass
+
+
+def _alarm(signum, frame):
+    raise UnitTimeout()
+
+
 def _worker(args):
     unit, tier, seed = args
+    import resource
+    import signal
     import symx
     symx.load_algopy()
     from symx import runner
+    limit = int(unit.opts.get('unit_timeout', 150 if tier == 'quick' else 900))
+    try:
+        mem = int(unit.opts.get('unit_mem_gb', 6)) << 30
+        resource.setrlimit(resource.RLIMIT_AS, (mem, mem))
+    except (ValueError, OSError):
+        pass
+    signal.signal(signal.SIGALRM, _alarm)
+    signal.alarm(limit)
     try:
         return runner.run_unit(unit, tier, seed)
+    except UnitTimeout:
+        r = runner.new_result(unit)
+        r['inconclusive'].append('%s: unit time limit %ds exceeded (never a pass)' % (unit.name, limit))
+        return r
+    except MemoryError:
+        r = runner.new_result(unit)
+        r['inconclusive'].append('%s: unit memory limit exceeded (never a pass)' % unit.name)
+        return r
     except BaseException as e:        # path-steering exceptions are BaseException
         import traceback
         r = runner.new_result(unit)
         r['inconclusive'].append('%s: worker crashed: %s: %s' % (unit.name, type(e).__name__, str(e)[:300]))
         r['notes'].append(traceback.format_exc()[-1500:])
         return r
+    finally:
+        signal.alarm(0)
 
 
 def load_known(pid):
